@@ -828,6 +828,34 @@ func runVF15(p *Prog, r *RuleRun) {
 						}
 					}
 				}
+				// (c) or a collector helper called in this block does the recording (ID -> BaseIndex into a map, the
+				// reader appended to a slice) on the segment handed to it
+				if !(mapUpd && appended) {
+					for _, i2 := range b.Instrs {
+						c2, ok := i2.(*ssa.Call)
+						if !ok {
+							continue
+						}
+						g := c2.Call.StaticCallee()
+						if g == nil || pkgRelOf(p, g) != "" || g.Blocks == nil {
+							continue
+						}
+						gMap, gApp := false, false
+						for _, gb := range g.Blocks {
+							for _, gi := range gb.Instrs {
+								if mu, ok := gi.(*ssa.MapUpdate); ok && fieldLoadName(mu.Key) == "ID" && fieldLoadName(mu.Value) == "BaseIndex" {
+									gMap = true
+								}
+								if c3, ok := gi.(*ssa.Call); ok && isBuiltinCall(c3, "append") {
+									gApp = true
+								}
+							}
+						}
+						if gMap && gApp {
+							mapUpd, appended = true, true
+						}
+					}
+				}
 				r.Check(mapUpd && appended || closureOK, key, posOf(p, c), "the removed segment's file (ID -> BaseIndex) and reader are recorded for the finalizer in the same step",
 					"a segment is removed from the working segment list without recording its ID/BaseIndex for deletion and its reader for closing: its file stays on disk (until the next Open) and its handle leaks")
 			}
